@@ -409,6 +409,12 @@ def _poly(e, atoms):
     if isinstance(e, ast.UnaryOp) and isinstance(e.op, ast.USub):
         r = _poly(e.operand, atoms)
         return None if r is None else _poly_mul({(): -1.0}, r)
+    # `<default> if m is None else m`: the rule is about a momentum that was given
+    if isinstance(e, ast.IfExp) and isinstance(e.test, ast.Compare) and len(e.test.ops) == 1 and isinstance(e.test.comparators[0], ast.Constant) and e.test.comparators[0].value is None:
+        given = e.orelse if isinstance(e.test.ops[0], ast.Is) else (e.body if isinstance(e.test.ops[0], ast.IsNot) else None)
+        default = e.body if isinstance(e.test.ops[0], ast.Is) else e.orelse
+        if given is not None and _poly(e.test.left, atoms) == _poly(given, atoms) and _poly(given, atoms) is not None and const_number(default) is not None and 0 < const_number(default) <= 1:
+            return _poly(given, atoms)
     if isinstance(e, ast.Call) and isinstance(e.func, ast.Attribute) and e.func.attr in ("detach", "clone", "float", "to") :
         return _poly(e.func.value, atoms)
     return None
